@@ -423,7 +423,31 @@ var hostileNumbers = []string{"00e5", "000e-3", "00E0", "0.0e5", "00.5e1", "0e5"
 var hostileInts = []string{"0", "7", "007", "0x1F", "0X0a", "00", "18446744073709551615", "1234567890123456789012345"}
 var plainNamePool = []string{"zz", "Col_1", "_x", "a1b2", "T9", "where_", "selectx", "x"}
 
+// dictVariant: a word of the source dictionary in a different letter case
+// (names and literals are transmitted as written, whatever they resemble).
+func dictVariant(rt *rapid.T) string {
+	var words []string
+	for _, w := range sourceWords() {
+		if len(w) >= 3 && w[0] >= 'a' && w[0] <= 'z' && strings.Trim(w, "abcdefghijklmnopqrstuvwxyz_") == "" {
+			words = append(words, w)
+		}
+	}
+	w := rapid.SampledFrom(words).Draw(rt, "dictword")
+	switch rapid.IntRange(0, 2).Draw(rt, "dictcase") {
+	case 0:
+		return strings.ToUpper(w)
+	case 1:
+		return strings.ToUpper(w[:1]) + w[1:]
+	}
+	// inner capitals: pieChart-like spellings
+	mid := len(w) / 2
+	return strings.ToUpper(w[:1]) + w[1:mid] + strings.ToUpper(w[mid:mid+1]) + w[mid+1:]
+}
+
 func genContent(rt *rapid.T, allowNewline bool) string {
+	if rapid.IntRange(0, 7).Draw(rt, "dictcontent") == 0 {
+		return dictVariant(rt)
+	}
 	if rapid.IntRange(0, 39).Draw(rt, "longcontent") == 0 {
 		// lengths around the sizes of small buffers
 		n := rapid.SampledFrom([]int{63, 64, 65, 255, 256, 257, 1023, 1024, 1025, 4096, 5000}).Draw(rt, "contentlen")
@@ -484,6 +508,9 @@ func TestC04Fillings(t *testing.T) {
 				v = genContent(rt, false)
 			case holePlainName:
 				v = rapid.SampledFrom(plainNamePool).Draw(rt, "plainname")
+				if rapid.IntRange(0, 4).Draw(rt, "dictname") == 0 {
+					v = dictVariant(rt)
+				}
 			case holeNum:
 				v = rapid.SampledFrom(hostileNumbers).Draw(rt, "num")
 			case holeIntNum:
